@@ -196,6 +196,9 @@ func run(start time.Time) (code int) {
 		for k, fn := range P.FuncByKey {
 			if strings.Contains(k, *flagDumpSSA) && fn.Blocks != nil {
 				fn.WriteTo(os.Stdout)
+				for _, af := range fn.AnonFuncs {
+					af.WriteTo(os.Stdout)
+				}
 			}
 		}
 		return 0
